@@ -87,6 +87,15 @@ impl<A> Drop for Context<A> {
     }
 }
 
+impl<A> Context<A> {
+    /// Abort all intervals and delayed tasks registered so far.
+    pub(crate) fn abort_tasks(&mut self) {
+        for task in self.tasks.drain(..) {
+            task.abort();
+        }
+    }
+}
+
 /// Life-cycle
 impl<A: Actor> Context<A> {
     /// Stop the actor.
